@@ -333,4 +333,416 @@ Section LineTrans.
             [intros; unfold n in *; lia | intros; rewrite <- L; apply Bm |].
           intros i Hi. replace (n - i - 1) with (S (n - 1) - i - 1) by lia. apply Hr. lia.
   Qed.
+
+  Lemma Forall2_P_sym ct c1 c2 : Forall2 (P ct) c1 c2 -> Forall2 (P ct) c2 c1.
+  Proof. intros H. apply Forall2_flip in H. eapply Forall2_impl_in; [|exact H]. simpl. intros; apply Psym; assumption. Qed.
+  Lemma Forall2_P_trans ct c1 c2 c3 : Forall2 (P ct) c1 c2 -> Forall2 (P ct) c2 c3 -> Forall2 (P ct) c1 c3.
+  Proof. apply Forall2_trans_gen. intros; eapply Ptrans; eassumption. Qed.
+
+  Lemma kind_sym ct c1 c2 : length c1 = length c2 -> line_kind ct c1 c2 -> line_kind ct c2 c1.
+  Proof.
+    intros L [H|[H|[R1 [R2 [Hn H]]]]].
+    - left. apply Forall2_P_sym; assumption.
+    - right; left. apply Forall2_rev in H. rewrite rev_involutive in H. apply Forall2_P_sym; assumption.
+    - right; right. repeat split; auto; try lia. intros d. rewrite <- L.
+      eapply Aff_sym; try eassumption; try lia. apply H.
+  Qed.
+
+  Lemma kind_ringb ct c1 c2 :
+    line_kind ct c1 c2 -> ringb (MkLine ct c2) = true -> ringb (MkLine ct c1) = true.
+  Proof.
+    intros [H|[H|[R1 _]]] R; auto.
+    - eapply ringb_transfer; eassumption.
+    - eapply ringb_transfer; [exact H|]. apply ringb_rev; assumption.
+  Qed.
+
+  Lemma ringb_closed ct d r :
+    ringb (MkLine ct (d :: r)) = true -> closedP F feq ct d (length (d :: r) - 1) (d :: r).
+  Proof.
+    unfold ringb. rewrite andb_true_iff. intros [_ E]. apply (ends_eq_iff ct (d :: r) d) in E. apply E.
+  Qed.
+
+  Lemma kind_aff ct c1 c2 d :
+    length c1 = length c2 -> 2 <= length c1 ->
+    ringb (MkLine ct c1) = true -> ringb (MkLine ct c2) = true ->
+    line_kind ct c1 c2 -> Aff F feq ct d (length c1 - 1) c1 c2.
+  Proof.
+    intros L Hn R1 R2 [H|[H|[_ [_ [_ H]]]]]; [| |apply H].
+    - eapply aff_of_id; try lia. intros i Hi. apply Forall2_nth_default; [exact H | lia].
+    - destruct c2 as [|d2 r2]; [simpl in L; lia|].
+      pose proof (ringb_closed ct d2 r2 R2) as C2. rewrite <- L in C2.
+      eapply aff_of_rev; try eassumption; try lia.
+      + unfold closedP in *. rewrite (nth_indep _ d d2), (nth_indep _ d d2) by (simpl in *; lia). exact C2.
+      + intros i Hi. pose proof (Forall2_nth_default _ _ _ d d H i ltac:(lia)) as Hi'.
+        rewrite rev_nth in Hi' by lia. rewrite <- L in Hi'.
+        replace (S (length c1 - 1) - i - 1) with (length c1 - S i) by lia. exact Hi'.
+  Qed.
+
+  Lemma kind_trans ct a b c :
+    length a = length b -> length b = length c ->
+    line_kind ct a b -> line_kind ct b c -> line_kind ct a c.
+  Proof.
+    intros L1 L2 K1 K2.
+    assert (Ring : ringb (MkLine ct b) = true -> 2 <= length a -> line_kind ct a c).
+    { intros Rb Hn. right; right.
+      assert (Ra : ringb (MkLine ct a) = true) by (eapply kind_ringb; eassumption).
+      assert (Rc : ringb (MkLine ct c) = true) by (eapply kind_ringb; [apply kind_sym; eassumption | assumption]).
+      repeat split; auto. intros d.
+      eapply Aff_trans; try eassumption; try lia.
+      - apply kind_aff; eauto.
+      - rewrite L1. apply kind_aff; eauto; lia. }
+    destruct K1 as [I1|[R1|[Ra [Rb [Hn _]]]]]; [| |apply Ring; auto];
+      (destruct K2 as [I2|[R2|[Rb [Rc [Hn _]]]]]; [| |apply Ring; auto; lia]).
+    - left. eapply Forall2_P_trans; eassumption.
+    - right; left. eapply Forall2_P_trans; eassumption.
+    - right; left. eapply Forall2_P_trans; [exact R1|]. apply Forall2_rev. assumption.
+    - left. eapply Forall2_P_trans; [exact R1|]. apply Forall2_rev in R2. rewrite rev_involutive in R2. assumption.
+  Qed.
+
+  Lemma line_io_trans l1 l2 l3 : leq l1 l2 = true -> leq l2 l3 = true -> leq l1 l3 = true.
+  Proof.
+    destruct l1 as [ct1 a], l2 as [ct2 b], l3 as [ct3 c]. intros H1 H2.
+    assert (ct1 = ct2) by (apply line_eq_iff in H1; simpl in H1; tauto).
+    assert (ct2 = ct3) by (apply line_eq_iff in H2; simpl in H2; tauto). subst ct2 ct3.
+    apply line_eq_kind in H1. apply line_eq_kind in H2. destruct H1 as [L1 K1], H2 as [L2 K2].
+    apply line_eq_kind. split; [congruence|]. eapply kind_trans; eassumption.
+  Qed.
 End LineTrans.
+
+Lemma structure_io_trans {A} (e : A -> A -> bool) l1 l2 l3 :
+  length l1 = length l2 -> length l2 = length l3 ->
+  (forall a b c, In a l1 -> e a b = true -> e b c = true -> e a c = true) ->
+  structure_eq true e l1 l2 = true -> structure_eq true e l2 l3 = true -> structure_eq true e l1 l3 = true.
+Proof.
+  intros L1 L2 T H1 H2. unfold structure_eq in *.
+  apply vp_sound in H1; [|assumption]. apply vp_sound in H2; [|assumption].
+  destruct H1 as [p [Pp Fp]], H2 as [q [Pq Fq]].
+  destruct (Forall2_perm_l _ l2 p q Pp Fq) as [q' [Pq' Fq']].
+  apply vp_complete with (p := q').
+  - eapply perm_trans; eassumption.
+  - eapply Forall2_trans_gen; [|exact Fp|exact Fq']. simpl. intros a b c Ha. apply T; assumption.
+Qed.
+
+Section GeomTrans.
+  Variable F : Type.
+  Variable feq : F -> F -> bool.
+  Variable simple : lineT F -> bool.
+  Hypothesis feq_sym : forall a b, feq a b = true -> feq b a = true.
+  Hypothesis feq_trans : forall a b c, feq a b = true -> feq b c = true -> feq a c = true.
+  Notation xy := (xy_exact feq).
+  Hypothesis simple_eq : forall ct vs ws,
+    Forall2 (veq feq ct) vs ws -> simple (MkLine ct vs) = simple (MkLine ct ws).
+  Hypothesis simple_rev : forall ct vs,
+    ends_eq feq xy (MkLine ct vs) = true -> simple (MkLine ct (rev vs)) = simple (MkLine ct vs).
+  Notation ltrans := (line_io_trans F feq simple feq_sym feq_trans simple_eq simple_rev).
+  Notation ee_io := (geom_eq feq xy simple true).
+
+  Lemma coord_eq_trans c1 a c2 b c3 c :
+    coord_eq feq xy c1 a c2 b = true -> coord_eq feq xy c2 b c3 c = true -> coord_eq feq xy c1 a c3 c = true.
+  Proof.
+    intros H1 H2. pose proof (coord_eq_ct _ _ _ _ _ _ _ H1). pose proof (coord_eq_ct _ _ _ _ _ _ _ H2). subst.
+    exact (P_trans F feq feq_sym feq_trans c3 a b c H1 H2).
+  Qed.
+
+  Lemma point_eq_trans p q r :
+    point_eq feq xy p q = true -> point_eq feq xy q r = true -> point_eq feq xy p r = true.
+  Proof.
+    unfold point_eq. destruct (point_c p), (point_c q), (point_c r); try discriminate; eauto using coord_eq_trans.
+    rewrite !ct_eqb_eq. congruence.
+  Qed.
+  Lemma mpoint_member_eq_trans p q r :
+    mpoint_member_eq feq xy p q = true -> mpoint_member_eq feq xy q r = true -> mpoint_member_eq feq xy p r = true.
+  Proof.
+    unfold mpoint_member_eq. destruct (point_c p), (point_c q), (point_c r); try discriminate; eauto using coord_eq_trans.
+  Qed.
+
+  Lemma poly_io_trans p q r :
+    poly_eq feq xy simple true p q = true -> poly_eq feq xy simple true q r = true ->
+    poly_eq feq xy simple true p r = true.
+  Proof.
+    unfold poly_eq. rewrite !andb_true_iff, !Nat.eqb_eq. intros [[L1 E1] H1] [[L2 E2] H2].
+    repeat split; [congruence | eapply ltrans; eassumption|].
+    eapply structure_io_trans; try eassumption. intros; eapply ltrans; eassumption.
+  Qed.
+
+  Lemma geom_io_trans g : forall h k, ee_io g h = true -> ee_io h k = true -> ee_io g k = true.
+  Proof.
+    induction g as [p|l|p|ct ps|ct ls|ct ps|ct gs IH] using geomT_ind';
+      intros [q|l2|q|ct2 qs|ct2 ks|ct2 qs|ct2 hs] [r|l3|r|ct3 rs|ct3 ms|ct3 rs|ct3 js]; simpl; try discriminate.
+    - apply point_eq_trans.
+    - apply ltrans.
+    - apply poly_io_trans.
+    - rewrite !andb_true_iff, !Nat.eqb_eq, !ct_eqb_eq. intros [[L1 C1] H1] [[L2 C2] H2].
+      repeat split; try congruence. eapply structure_io_trans; try eassumption.
+      intros; eapply mpoint_member_eq_trans; eassumption.
+    - rewrite !andb_true_iff, !Nat.eqb_eq, !ct_eqb_eq. intros [[L1 C1] H1] [[L2 C2] H2].
+      repeat split; try congruence. eapply structure_io_trans; try eassumption.
+      intros; eapply ltrans; eassumption.
+    - rewrite !andb_true_iff, !Nat.eqb_eq, !ct_eqb_eq. intros [[L1 C1] H1] [[L2 C2] H2].
+      repeat split; try congruence. eapply structure_io_trans; try eassumption.
+      intros; eapply poly_io_trans; eassumption.
+    - rewrite !andb_true_iff, !Nat.eqb_eq, !ct_eqb_eq. intros [[L1 C1] H1] [[L2 C2] H2].
+      repeat split; try congruence. eapply structure_io_trans; try eassumption.
+      rewrite Forall_forall in IH. intros a b c Ha. apply IH; assumption.
+  Qed.
+End GeomTrans.
+
+(* ------------------------------------------------------------------ induction over OrderEquiv *)
+Section OEInd.
+  Variable F : Type.
+  Variable feq : F -> F -> bool.
+  Variable simple : lineT F -> bool.
+  Notation OE := (OrderEquiv feq simple).
+  Variable Q : geomT F -> geomT F -> Prop.
+  Hypothesis Hplain : forall g h, plain_eq feq simple g h -> Q g h.
+  Hypothesis Hsym : forall g h, OE g h -> Q g h -> Q h g.
+  Hypothesis Htrans : forall g h k, OE g h -> Q g h -> OE h k -> Q h k -> Q g k.
+  Hypothesis Hrev : forall ct vs, Q (GLine (MkLine ct vs)) (GLine (MkLine ct (rev vs))).
+  Hypothesis Hring : forall ct vs ws k (flip : bool),
+    ring feq simple (MkLine ct vs) -> ring feq simple (MkLine ct ws) ->
+    Forall2 (veq feq ct) (if flip then rev ws else ws) (rotk k vs) ->
+    Q (GLine (MkLine ct vs)) (GLine (MkLine ct ws)).
+  Hypothesis Hpmpoint : forall ct ps qs, Permutation ps qs -> Q (GMPoint ct ps) (GMPoint ct qs).
+  Hypothesis Hpmline : forall ct ls ks, Permutation ls ks -> Q (GMLine ct ls) (GMLine ct ks).
+  Hypothesis Hpmpoly : forall ct ps qs, Permutation ps qs -> Q (GMPoly ct ps) (GMPoly ct qs).
+  Hypothesis Hpcoll : forall ct gs hs, Permutation gs hs -> Q (GColl ct gs) (GColl ct hs).
+  Hypothesis Hpholes : forall ct e hs ks, Permutation hs ks ->
+    Q (GPoly (MkPoly ct (e :: hs))) (GPoly (MkPoly ct (e :: ks))).
+  Hypothesis Hipoly : forall ct rs ss,
+    Forall2 (fun l k => OE (GLine l) (GLine k) /\ Q (GLine l) (GLine k)) rs ss ->
+    Q (GPoly (MkPoly ct rs)) (GPoly (MkPoly ct ss)).
+  Hypothesis Himline : forall ct ls ks,
+    Forall2 (fun l k => OE (GLine l) (GLine k) /\ Q (GLine l) (GLine k)) ls ks ->
+    Q (GMLine ct ls) (GMLine ct ks).
+  Hypothesis Himpoly : forall ct ps qs,
+    Forall2 (fun p q => OE (GPoly p) (GPoly q) /\ Q (GPoly p) (GPoly q)) ps qs ->
+    Q (GMPoly ct ps) (GMPoly ct qs).
+  Hypothesis Hicoll : forall ct gs hs,
+    Forall2 (fun g h => OE g h /\ Q g h) gs hs -> Q (GColl ct gs) (GColl ct hs).
+
+  Lemma OrderEquiv_ind' : forall g h, OE g h -> Q g h.
+  Proof.
+    fix IH 3. intros g h H. destruct H.
+    - apply Hplain; assumption.
+    - apply Hsym; [assumption | apply IH; assumption].
+    - eapply Htrans; [exact H | apply IH; exact H | exact H0 | apply IH; exact H0].
+    - apply Hrev.
+    - eapply Hring; eassumption.
+    - apply Hpmpoint; assumption.
+    - apply Hpmline; assumption.
+    - apply Hpmpoly; assumption.
+    - apply Hpcoll; assumption.
+    - apply Hpholes; assumption.
+    - apply Hipoly. revert rs ss H. fix go 3. intros rs ss H. destruct H; constructor.
+      + split; [assumption | apply IH; assumption].
+      + apply go; assumption.
+    - apply Himline. revert ls ks H. fix go 3. intros ls ks H. destruct H; constructor.
+      + split; [assumption | apply IH; assumption].
+      + apply go; assumption.
+    - apply Himpoly. revert ps qs H. fix go 3. intros ps qs H. destruct H; constructor.
+      + split; [assumption | apply IH; assumption].
+      + apply go; assumption.
+    - apply Hicoll. revert gs hs H. fix go 3. intros gs hs H. destruct H; constructor.
+      + split; [assumption | apply IH; assumption].
+      + apply go; assumption.
+  Qed.
+End OEInd.
+
+(* ------------------------------------------------------------------ completeness *)
+Lemma structure_perm_self_l {A} (e : A -> A -> bool) l m :
+  Permutation l m -> structure_eq true e l l = true -> structure_eq true e l m = true.
+Proof.
+  intros Pm H. unfold structure_eq in *. apply vp_sound in H; [|reflexivity]. destruct H as [p [Pp Fp]].
+  apply vp_complete with (p := p); [|assumption]. eapply perm_trans; [apply Permutation_sym; exact Pm | exact Pp].
+Qed.
+
+Lemma structure_perm_self_r {A} (e : A -> A -> bool) l m :
+  Permutation l m -> structure_eq true e m m = true -> structure_eq true e l m = true.
+Proof.
+  intros Pm H. unfold structure_eq in *. apply vp_sound in H; [|reflexivity]. destruct H as [p [Pp Fp]].
+  destruct (Forall2_perm_l _ m l p (Permutation_sym Pm) Fp) as [p' [Pp' Fp']].
+  apply vp_complete with (p := p'); [|assumption]. eapply perm_trans; eassumption.
+Qed.
+
+Lemma structure_self_members {A} (e : A -> A -> bool) l :
+  (forall a b, e a b = true -> e a a = true) ->
+  structure_eq true e l l = true -> Forall (fun a => e a a = true) l.
+Proof.
+  intros S H. unfold structure_eq in H. apply vp_sound in H; [|reflexivity]. destruct H as [p [_ Fp]].
+  clear -S Fp. induction Fp; constructor; eauto.
+Qed.
+
+Section Complete.
+  Variable F : Type.
+  Variable feq : F -> F -> bool.
+  Variable simple : lineT F -> bool.
+  Hypothesis feq_sym : forall a b, feq a b = true -> feq b a = true.
+  Hypothesis feq_trans : forall a b c, feq a b = true -> feq b c = true -> feq a c = true.
+  Notation xy := (xy_exact feq).
+  Hypothesis simple_eq : forall ct vs ws,
+    Forall2 (veq feq ct) vs ws -> simple (MkLine ct vs) = simple (MkLine ct ws).
+  Hypothesis simple_rev : forall ct vs,
+    ends_eq feq xy (MkLine ct vs) = true -> simple (MkLine ct (rev vs)) = simple (MkLine ct vs).
+  Notation ee_io := (geom_eq feq xy simple true).
+  Notation leq := (line_eq feq xy simple true).
+  Notation OE := (OrderEquiv feq simple).
+  Notation P := (P F feq).
+  Notation gsym := (geom_io_sym F feq simple feq_sym feq_trans).
+  Notation gtrans := (geom_io_trans F feq simple feq_sym feq_trans simple_eq simple_rev).
+  Notation lkind := (line_eq_kind F feq simple feq_sym feq_trans simple_eq simple_rev).
+
+  (* self-equal = every compared ordinate is == to itself (no NaN) *)
+  Definition slf (g : geomT F) : Prop := ee_io g g = true.
+
+  Lemma ee_slf_l g h : ee_io g h = true -> slf g.
+  Proof. intros H. unfold slf. eapply gtrans; [exact H | apply gsym; exact H]. Qed.
+  Lemma ee_slf_r g h : ee_io g h = true -> slf h.
+  Proof. intros H. unfold slf. eapply gtrans; [apply gsym; exact H | exact H]. Qed.
+
+  Lemma Forall2_P_self ct c1 c2 : Forall2 (P ct) c1 c2 -> Forall2 (P ct) c1 c1.
+  Proof.
+    induction 1; constructor; auto.
+    eapply (P_trans F feq feq_sym feq_trans); [exact H | apply (P_sym F feq feq_sym); exact H].
+  Qed.
+
+  Lemma line_self ct vs : leq (MkLine ct vs) (MkLine ct vs) = true -> Forall2 (P ct) vs vs.
+  Proof.
+    intros H. apply lkind in H. destruct H as [_ [H|[H|[R [_ [Hn H]]]]]].
+    - exact H.
+    - eapply Forall2_P_self; exact H.
+    - destruct vs as [|d r]; [simpl in Hn; lia|]. set (c := d :: r) in *.
+      assert (C : closedP F feq ct d (length c - 1) c) by (eapply ringb_closed; eassumption).
+      destruct (H d) as [s [k [_ Hz]]].
+      apply (Forall2_of_nth _ c c d d); auto. intros i Hi.
+      destruct (Nat.eq_dec i (length c - 1)) as [->|Hne].
+      + unfold closedP in C. eapply (P_trans F feq feq_sym feq_trans); [apply (P_sym F feq feq_sym); exact C | exact C].
+      + specialize (Hz (Z.of_nat i)). rewrite cyc_small in Hz by lia.
+        eapply (P_trans F feq feq_sym feq_trans); [exact Hz | apply (P_sym F feq feq_sym); exact Hz].
+  Qed.
+
+  Lemma accept_reverse ct vs :
+    Forall2 (P ct) vs vs -> leq (MkLine ct vs) (MkLine ct (rev vs)) = true.
+  Proof.
+    intros H. apply lkind. rewrite rev_length. split; auto. right; left. rewrite rev_involutive. exact H.
+  Qed.
+
+  Definition Qc (g h : geomT F) : Prop := slf g \/ slf h -> ee_io g h = true.
+
+  (* members that are self-equal on one side, pairwise Qc: pairwise accepted *)
+  Lemma members_accept {A} (w : A -> geomT F) (e : A -> A -> bool) ls ks :
+    (forall a b, e a b = ee_io (w a) (w b)) ->
+    Forall2 (fun a b => OE (w a) (w b) /\ Qc (w a) (w b)) ls ks ->
+    Forall (fun a => e a a = true) ls \/ Forall (fun b => e b b = true) ks ->
+    Forall2 (fun a b => e a b = true) ls ks.
+  Proof.
+    intros E H. induction H as [|a b ls ks [_ Hq] H IH]; intros S; constructor.
+    - rewrite E. apply Hq. unfold slf. rewrite <- !E.
+      destruct S as [S|S]; inversion S; subst; auto.
+    - apply IH. destruct S as [S|S]; inversion S; subst; auto.
+  Qed.
+
+  Lemma e_self_line a b : leq a b = true -> leq a a = true.
+  Proof. intros H. exact (ee_slf_l (GLine a) (GLine b) H). Qed.
+  Lemma e_self_poly a b : poly_eq feq xy simple true a b = true -> poly_eq feq xy simple true a a = true.
+  Proof. intros H. exact (ee_slf_l (GPoly a) (GPoly b) H). Qed.
+  Lemma e_self_geom a b : ee_io a b = true -> ee_io a a = true.
+  Proof. apply ee_slf_l. Qed.
+
+  Lemma oe_complete_aux : forall g h, OE g h -> Qc g h.
+  Proof.
+    apply OrderEquiv_ind'; unfold Qc.
+    - (* structural equality *) intros g h H _. revert H. apply ee_plain_implies_io_lemma.
+    - (* symmetry *) intros g h _ IH S. apply gsym. apply IH. tauto.
+    - (* transitivity *) intros g h k _ IH1 _ IH2 [S|S].
+      + pose proof (IH1 (or_introl S)) as E1. eapply gtrans; [exact E1|]. apply IH2. left. eapply ee_slf_r; exact E1.
+      + pose proof (IH2 (or_intror S)) as E2. eapply gtrans; [|exact E2]. apply IH1. right. eapply ee_slf_l; exact E2.
+    - (* reversal *) intros ct vs [S|S]; simpl; apply accept_reverse.
+      + apply line_self. exact S.
+      + unfold slf in S. simpl in S. apply line_self in S. apply Forall2_rev in S.
+        rewrite !rev_involutive in S. exact S.
+    - (* ring moves *) intros ct vs ws k flip R1 R2 H _.
+      apply gsym. simpl. exact (io_accepts_ring_move F feq simple ct vs ws k flip R1 R2 H).
+    - (* member order *) intros ct ps qs Pm [S|S]; unfold slf in S; simpl in *;
+        rewrite !andb_true_iff in *; destruct S as [[_ _] S];
+        rewrite (Permutation_length Pm), Nat.eqb_refl, ct_eqb_refl; repeat split;
+        [apply structure_perm_self_l | apply structure_perm_self_r]; assumption.
+    - intros ct ps qs Pm [S|S]; unfold slf in S; simpl in *;
+        rewrite !andb_true_iff in *; destruct S as [[_ _] S];
+        rewrite (Permutation_length Pm), Nat.eqb_refl, ct_eqb_refl; repeat split;
+        [apply structure_perm_self_l | apply structure_perm_self_r]; assumption.
+    - intros ct ps qs Pm [S|S]; unfold slf in S; simpl in *;
+        rewrite !andb_true_iff in *; destruct S as [[_ _] S];
+        rewrite (Permutation_length Pm), Nat.eqb_refl, ct_eqb_refl; repeat split;
+        [apply structure_perm_self_l | apply structure_perm_self_r]; assumption.
+    - intros ct ps qs Pm [S|S]; unfold slf in S; simpl in *;
+        rewrite !andb_true_iff in *; destruct S as [[_ _] S];
+        rewrite (Permutation_length Pm), Nat.eqb_refl, ct_eqb_refl; repeat split;
+        [apply structure_perm_self_l | apply structure_perm_self_r]; assumption.
+    - (* hole order *) intros ct e hs ks Pm [S|S]; unfold slf in S; simpl in *; unfold poly_eq in *;
+        cbn [int_rings poly_rings ext_ring] in *; rewrite !andb_true_iff in *; destruct S as [[_ E] S];
+        rewrite (Permutation_length Pm), Nat.eqb_refl; repeat split; auto;
+        [apply structure_perm_self_l | apply structure_perm_self_r]; assumption.
+    - (* inside polygons *) intros ct rs ss H S.
+      assert (Hl : Forall2 (fun a b => leq a b = true) rs ss).
+      { apply (members_accept (fun l => GLine l) leq rs ss); [reflexivity | exact H |].
+        destruct S as [S|S]; [left|right]; unfold slf in S; simpl in S; unfold poly_eq in S;
+          rewrite !andb_true_iff in S; destruct S as [[_ E] S];
+          apply (structure_self_members _ _ e_self_line) in S.
+        - destruct rs; cbn [int_rings poly_rings ext_ring] in *; constructor; auto.
+        - destruct ss; cbn [int_rings poly_rings ext_ring] in *; constructor; auto. }
+      exact (proj1 (io_accepts_inside_members F feq simple) ct rs ss Hl).
+    - (* inside MultiLineStrings *) intros ct ls ks H S.
+      apply (proj1 (proj2 (io_accepts_inside_members F feq simple))).
+      apply (members_accept (fun l => GLine l) leq ls ks); [reflexivity | exact H |].
+      destruct S as [S|S]; [left|right]; unfold slf in S; simpl in S;
+        rewrite !andb_true_iff in S; destruct S as [_ S];
+        apply (structure_self_members _ _ e_self_line) in S; exact S.
+    - (* inside MultiPolygons *) intros ct ps qs H S.
+      apply (proj1 (proj2 (proj2 (io_accepts_inside_members F feq simple)))).
+      apply (members_accept (fun p => GPoly p) (poly_eq feq xy simple true) ps qs); [reflexivity | exact H |].
+      destruct S as [S|S]; [left|right]; unfold slf in S; simpl in S;
+        rewrite !andb_true_iff in S; destruct S as [_ S];
+        apply (structure_self_members _ _ e_self_poly) in S; exact S.
+    - (* inside collections *) intros ct gs hs H S.
+      apply (proj2 (proj2 (proj2 (io_accepts_inside_members F feq simple)))).
+      apply (members_accept (fun g => g) (fun a b => ee_io a b) gs hs); [reflexivity | exact H |].
+      destruct S as [S|S]; [left|right]; unfold slf in S; simpl in S;
+        rewrite !andb_true_iff in S; destruct S as [_ S];
+        apply (structure_self_members _ _ e_self_geom) in S; exact S.
+  Qed.
+
+  Lemma ee_io_complete_lemma g h : OE g h -> ee_io g g = true -> ee_io g h = true.
+  Proof. intros H S. apply (oe_complete_aux g h H). left. exact S. Qed.
+
+  (* the full equivalence: IgnoreOrder identifies exactly the OrderEquiv-related values *)
+  Lemma ee_io_iff_lemma g h :
+    cts_agree g = true -> cts_agree h = true -> ee_io g g = true ->
+    (ee_io g h = true <-> OE g h).
+  Proof.
+    intros Cg Ch S. split.
+    - apply ee_io_sound_lemma; assumption.
+    - intros H. apply ee_io_complete_lemma; assumption.
+  Qed.
+End Complete.
+
+(* bit patterns *)
+Lemma ee_io_iff_bits simple g h :
+  (forall ct vs ws, Forall2 (veq feq_bits ct) vs ws -> simple (MkLine ct vs) = simple (MkLine ct ws)) ->
+  (forall ct vs, ends_eq feq_bits (xy_exact feq_bits) (MkLine ct vs) = true ->
+                 simple (MkLine ct (rev vs)) = simple (MkLine ct vs)) ->
+  cts_agree g = true -> cts_agree h = true -> nan_free g = true ->
+  (exact_equals simple 0 true g h = true <-> OrderEquiv feq_bits simple g h).
+Proof.
+  intros He Hr Cg Ch Ng. pose proof (ee_tol_refl_lemma simple 0 true g Ng) as S.
+  unfold exact_equals in *.
+  change (xy_eq_bits 0) with (fun a b : vtx N => xy_exact feq_bits a b) in *.
+  apply ee_io_iff_lemma; auto.
+  - intros a b E. rewrite feq_bits_sym. exact E.
+  - exact feq_bits_trans.
+Qed.
+
+Lemma const_oracle_invariant {F} (feq : F -> F -> bool) (b : bool) :
+  (forall ct vs ws, Forall2 (veq feq ct) vs ws -> (fun _ : lineT F => b) (MkLine ct vs) = (fun _ : lineT F => b) (MkLine ct ws)) /\
+  (forall ct vs, ends_eq feq (xy_exact feq) (MkLine ct vs) = true ->
+                 (fun _ : lineT F => b) (MkLine ct (rev vs)) = (fun _ : lineT F => b) (MkLine ct vs)).
+Proof. split; reflexivity. Qed.
